@@ -1,7 +1,7 @@
 #!/bin/bash
 # tools/with_patch.sh <patch.diff> <command...>: applies a seeded change to /repo, runs the command, undoes it.
 # Refuses to run when /repo has uncommitted changes to tracked files (they would be lost by the undo).
-p="$1"; shift
+p="$(readlink -f "$1")"; shift
 if [ -n "$(git -C /repo status --porcelain --untracked-files=no)" ]; then
   echo "with_patch: /repo has uncommitted changes to tracked files; commit them first" >&2; exit 99
 fi
